@@ -216,6 +216,7 @@ PROPS["C19"] = {
         rapid("admitted-usernames", "group", "TestVerif_C19_AdmittedUsernames", 3000, 30000),
         rapid("description-store", "group", "TestVerif_C19_DescriptionStore", 3000, 30000),
         rapid("group-registry", "group", "TestVerif_C19_GroupRegistry", 1500, 20000),
+        rapid("recording-file-names", "diskwriter", "TestVerif_C20_Recording", 1500, 8000),
     ],
     "technique": "property-based testing (rapid): reference predicate for the validators; hostile usernames through every login route (password, wildcard, stateful and signed tokens) into AddClient; hostile request targets over raw TCP against the real server with sentinel files outside the roots",
     "assumptions": ["Linux path semantics (filepath.Separator == '/')", "symlinks placed inside the roots by the operator are not a client-supplied name"],
